@@ -606,8 +606,12 @@ def _mk():
 
     def b_id(it, a, k, n):
         v = a[0]
-        if isinstance(v, (TV, Obj, list, dict)):
-            return id(v)  # identity of the abstract object stands for the identity of the run-time object
+        if isinstance(v, (TV, Obj, list, dict, FuncV, Bound)):
+            from .values import IdInt
+
+            r_ = IdInt(id(v))  # identity of the abstract object stands for the identity of the run-time object
+            r_.of = v
+            return r_
         return T("id", (A._term(v),))
 
     def b_map(it, a, k, n):
